@@ -45,6 +45,8 @@ pub struct DumpSpec {
     /// (dump_thread_id, requesting_thread_id); None = field not valid
     pub breakpad: Option<(Option<u32>, Option<u32>)>,
     pub misc_pid: Option<Option<u32>>, // Some(None): misc info without pid
+    /// process create time (seconds since the epoch) in the misc info stream, if any
+    pub misc_create_time: Option<u32>,
     pub modules: Vec<ModuleSpec>,
     pub unloaded: Vec<ModuleSpec>,
     pub memory_info: Vec<RegionSpec>,
@@ -59,7 +61,7 @@ pub struct DumpSpec {
 impl Default for DumpSpec {
     fn default() -> Self {
         DumpSpec { big_endian: false, os: "windows".into(), cpu: "x86".into(), threads: vec![], has_thread_list: true, exception: None, breakpad: None,
-                   misc_pid: None, modules: vec![], unloaded: vec![], memory_info: vec![], linux_maps: None, proc_status: None, proc_limits: None, lsb: None,
+                   misc_pid: None, misc_create_time: None, modules: vec![], unloaded: vec![], memory_info: vec![], linux_maps: None, proc_status: None, proc_limits: None, lsb: None,
                    extra_memory: vec![], twin_pdb: None }
     }
 }
@@ -128,6 +130,9 @@ fn build_pass(spec: &DumpSpec, exc_ctx: (u32, u32)) -> Vec<u8> {
     if let Some(mp) = &spec.misc_pid {
         let mut m = synth::MiscStream::new(endian);
         m.process_id = *mp;
+        if let Some(t) = spec.misc_create_time {
+            m.process_times = Some(synth::MiscFieldsProcessTimes { process_create_time: t, process_user_time: 3, process_kernel_time: 4 });
+        }
         d = d.add_stream(m);
     }
     for t in &spec.threads {
